@@ -399,3 +399,28 @@ CHECKS["C09"] = {
         {"name": "TestRegression_.*", "quick": {}, "thorough": {}},
     ],
 }
+
+CHECKS["C03"] = {
+    "pkg": "./c03/",
+    "level": "exploration",
+    "technique": "model-based property testing (rapid): generated flush/compact histories on a kv family with the production MetricDataMerger; blocks written through the production metricsdata.Flusher with memdb's calling protocol (builder proven byte-identical to a real memdb flush); oracle = reference model + before/after comparison through the production query read path",
+    "rule": ("case = 1-4 metrics (kv keys), 1-5 fields/metric of types sum/min/max/first/last/histogram (ids incl. 0, 200, 254), series ids from {0..7} u {65534,65535,65536,65537,131071,131072,131073,196608}, "
+             "2-6 flushed files (fields declared in arbitrary order, fields/series declared without data as memdb does, windows identical/nested/overlapping/disjoint, sparse slots, ranges > 360 slots, "
+             "values k/8 plus arbitrary finite floats for non-additive types), compaction after any flush (Family.Compact guard or periodic guard, CompactThreshold 0/1/2), MaxFileSize in {default,1,150,400,1MiB}, reopen, repeated compaction. "
+             "After every flush reader == model exactly; across every compaction: same cells/series/fields/slot range both ways, sum/min/max/histogram aggregate equal, first/last in contributed values; level 0 empty and one file per metric afterwards. "
+             "non-trivial = a compaction that ran had >= 2 input files sharing a (metric, series, field, slot) cell; distinct = hash of options + file contents + step sequence; "
+             "classes: split-output, level1-overlap, field-only-in-some-files, container-boundary-crossed, series-without-data-in-file, declared-field-without-data, single-field-block, range-wider-than-360, repeated-compaction, trivial-move, reopen"),
+    "level_text": ("Generated-input exploration: thousands of small histories per run (58% non-trivial, 1/3 with split output, 1/5 with level-1 overlap) plus dense cases with up to 70000 consecutive series ids; "
+                   "every (metric, series, field, slot) is read back through the production reader before and after each compaction and compared with an independent model, which is exactly the statement's quantifier up to sampling."),
+    "level_note": ("Trusted: roaring, the kv table format (C15), manifest handling (C01). Values dyadic so float sums are exact. Rollup merges (kv.Rollup context) belong to C04. "
+                   "Structural assertions (level 0 empty, one file per key after compaction) are the documented level behaviour, not part of the statement."),
+    "assumptions": ["store options = kv.DefaultStoreOption (2 levels) as tsdb/segment.go", "metric slot range is the tight min/max of written slots (memdb StoreTimeRange)",
+                    "field type of a (metric, field id) never changes", "slots <= 3599 + small widths, <= 3 fields per dense case"],
+    "tests": [
+        {"name": "TestCompactionKeepsObservations", "quick": 3000, "thorough": {"checks": 6000, "shards": 16}},
+        {"name": "TestCompactionDenseSeries", "quick": 6, "thorough": {"checks": 12, "shards": 16}},
+        {"name": "TestBuilderMatchesMemdbFlush", "quick": 1000, "thorough": {"checks": 5000, "shards": 4}},
+        {"name": "TestModelUnit", "quick": {}, "thorough": {}},
+        {"name": "TestRegression_.*", "quick": {}, "thorough": {}},
+    ],
+}
